@@ -38,6 +38,10 @@ COMPONENTS = {
 }
 PROBES = ["transport-sdo", "transport-pdo-event", "transport-pdo-periodic", "auto-transition-during-assignment", "fault-reset", "fault-reset-without-edge",
           "refused-target", "detour", "mode-supported", "mode-unsupported", "decode-unknown"]
+# probes that mark an injected disturbance; the runner also counts them as fired faults in the evidence
+FAULT_PROBES = {'auto-transition-during-assignment': 'drive-changes-state-on-its-own',
+ 'fault-reset': 'drive-fault',
+ 'fault-reset-without-edge': 'drive-fault'}
 
 TRANSPORTS = ("sdo", "pdo-event", "pdo-periodic")
 COMMANDABLE = (SOD, RTSO, SO, OE, QSA)
